@@ -5,9 +5,24 @@ import os
 from typing import Optional
 
 from antlr4 import FileStream, CommonTokenStream
+from antlr4.error.ErrorListener import ErrorListener
+from ...exceptions import MalCompilerError
 from .mal_lexer import malLexer
 from .mal_parser import malParser
 from .mal_visitor import malVisitor
+
+
+class RaisingErrorListener(ErrorListener):
+    """Turn every lexer / parser error into an exception: a file that does
+    not conform to the grammar must not be compiled from its fragments."""
+    def __init__(self, filename):
+        super().__init__()
+        self.filename = filename
+
+    def syntaxError(self, recognizer, offendingSymbol, line, column, msg, e):
+        raise MalCompilerError(
+            f'{self.filename}:{line}:{column}: {msg}'
+        )
 
 
 class MalCompiler:
@@ -24,9 +39,14 @@ class MalCompiler:
         input_stream = FileStream(
             os.path.join(self.path, self.current_file), encoding="utf-8"
         )
+        error_listener = RaisingErrorListener(self.current_file)
         lexer = malLexer(input_stream)
+        lexer.removeErrorListeners()
+        lexer.addErrorListener(error_listener)
         stream = CommonTokenStream(lexer)
         parser = malParser(stream)
+        parser.removeErrorListeners()
+        parser.addErrorListener(error_listener)
         tree = parser.mal()
 
         return malVisitor(compiler=self).visit(tree)
